@@ -348,6 +348,39 @@ def int_float(run, self):
     raise Unsupported("symbolic int -> float")
 
 
+def _digit_val(c):
+    """digit value of an ASCII alphanumeric code point, -1 for anything else"""
+    return z3.If(z3.And(c >= 48, c <= 57), c - 48,
+                 z3.If(z3.And(c >= 97, c <= 122), c - 87, z3.If(z3.And(c >= 65, c <= 90), c - 55, z3.IntVal(-1))))
+
+
+def _int_of_digits(run, x, base):
+    """int(text, base), exact, for a symbolic text of known length 1..16 that consists of ASCII alphanumerics only
+    (no sign, blank, underscore, prefix or non-ASCII digit: those cases return None and stay over-approximated).
+    Raises ValueError (symbolically) for the empty text and for a digit that is not below the base."""
+    if not isinstance(base, int) or not 2 <= base <= 36:
+        return None
+    t = x.t
+    # only texts whose length the path condition determines (no forking over lengths)
+    if run.solver.check() != z3.sat:
+        return None
+    n = run.solver.model().eval(z3.Length(t), model_completion=True)
+    if not z3.is_int_value(n) or not 1 <= n.as_long() <= 16:
+        return None
+    n = n.as_long()
+    if run.feasible(z3.Length(t) != n):
+        return None
+    codes = [z3.StrToCode(z3.SubString(t, i, 1)) for i in range(n)]
+    dv = [_digit_val(c) for c in codes]
+    if not run.branch(z3.And(*[d >= 0 for d in dv])):
+        return None
+    if run.branch(z3.And(*[d < base for d in dv])):
+        return z3.Sum(*[d * (base ** (n - 1 - i)) for i, d in enumerate(dv)]) if n > 1 else dv[0]
+    if base in (2, 8, 16) and n >= 2 and run.branch(z3.And(codes[0] == 48, z3.Or(*[codes[1] == ord(ch) for ch in "xXoObB"]))):
+        return None     # a base prefix such as 0x: left to the over-approximation
+    run.throw(ValueError, f"invalid literal for int() with base {base}")
+
+
 @method(int, "__new__")
 def int_new(run, clsv, x=None, base=None, **kw):
     cls = clsv.obj
@@ -355,6 +388,10 @@ def int_new(run, clsv, x=None, base=None, **kw):
         return VInt(cls, 0)
     if base is not None:
         if not (isinstance(x, (VStr, VBytes)) and is_concrete(x) and is_concrete(base)):
+            if isinstance(x, VStr) and is_concrete(base) and not is_concrete(x):
+                exact = _int_of_digits(run, x, _se().conc(base))
+                if exact is not None:
+                    return VInt(cls, exact)
             if isinstance(x, VStr):
                 run.note("int(<symbolic text>, base) is abstracted to 'some integer or ValueError'")
                 run.overapprox = True
@@ -798,7 +835,8 @@ def _str_fold(name):
     def m(run, self, *args, **kw):
         se = _se()
         if name == "encode" and not is_concrete(self) and (not args or (is_concrete(args[0]) and se.conc(args[0]).lower().replace("-", "") == "utf8")):
-            b = run.fresh("utf8", BYTES)
+            # utf8_fn: the encoding as a function symbol (same symbol in code and specification) instead of a fresh constant
+            b = HV_UTF8(self.t) if run.ghost.get("utf8_fn") else run.fresh("utf8", BYTES)
             run.ghost.setdefault("utf8_of", {})[b.get_id()] = self.t
             run.note("UTF-8: bytes.decode('utf-8') inverts str.encode('utf-8') (trusted)")
             return VBytes(bytes, b)
@@ -812,6 +850,19 @@ def _str_fold(name):
         h = run.ghost.get("str_method")
         if h is not None:
             return h(run, name, self, args, kw)
+        if name in ("lower", "upper") and not args and not kw and isinstance(self, VStr):
+            # a text the path condition determines completely (e.g. a slice inside a concrete prefix) is folded natively
+            simp = z3.simplify(self.t)
+            if z3.is_string_value(simp):
+                return se.lift(getattr(str, name)(se.zstr_to_py(simp)))
+            run.solver.push()
+            try:
+                if run.solver.check() == z3.sat:
+                    val = run.solver.model().eval(self.t, model_completion=True)
+                    if z3.is_string_value(val) and not run.feasible(self.t != val):
+                        return se.lift(getattr(str, name)(se.zstr_to_py(val)))
+            finally:
+                run.solver.pop()
         raise Unsupported(f"str.{name} on symbolic string")
     return m
 
@@ -990,6 +1041,18 @@ def bytes_new(run, clsv, x=None, *a, **kw):
         return VBytes(cls, x.t)
     if isinstance(x, VIter):
         x = VList(list, list(x.it))
+    if isinstance(x, VList) and not a and not kw and x.items and all(isinstance(i, VInt) for i in x.items) \
+            and (not is_concrete(x) or any(isinstance(i, VByteRun) for i in x.items)):
+        # bytes(iterable of ints): every item must be in range(256) (else ValueError); the result is their concatenation
+        parts = []
+        for i in x.items:
+            if isinstance(i, VByteRun):
+                parts.append(i.seq)
+                continue
+            if run.branch(z3.Or(i.t < 0, i.t > 255)):
+                run.throw(ValueError, "bytes must be in range(0, 256)")
+            parts.append(z3.Unit(z3.Int2BV(i.t, 8)))
+        return VBytes(cls, parts[0] if len(parts) == 1 else z3.Concat(*parts))
     if is_concrete(x) and all(is_concrete(i) for i in a):
         try:
             return VBytes(cls, bytes(se.conc(x), *[se.conc(i) for i in a], **{k: se.conc(v) for k, v in kw.items()}))
@@ -1783,6 +1846,11 @@ def b_divmod(run, a, b):
 def b_ord(run, c):
     if is_concrete(c):
         return VInt(int, ord(_se().conc(c)))
+    if isinstance(c, VStr):
+        if run.branch(z3.Length(c.t) != 1):
+            run.throw(TypeError, "ord() expected a character")
+        if run.branch(z3.StrToCode(c.t) <= 0x2FFFF):
+            return VInt(int, z3.StrToCode(c.t))
     raise Unsupported("ord of symbolic char")
 
 
@@ -1794,7 +1862,37 @@ def b_chr(run, i):
             return VStr(str, chr(c))
         except (ValueError, OverflowError) as ex:
             run.throw(type(ex), *ex.args)
-    raise Unsupported("chr of symbolic int")
+    if not isinstance(i, VInt):
+        run.throw(TypeError, "an integer is required")
+    if run.branch(z3.Or(i.t < 0, i.t > 0x10FFFF)):
+        if run.branch(z3.Or(i.t > 2**31 - 1, i.t < -2**31)):
+            run.throw(OverflowError, "signed integer is greater than maximum")
+        run.throw(ValueError, "chr() arg not in range(0x110000)")
+    return VStr(str, chr_term(run, i.t))
+
+
+HV_CHR = z3.Function("hv_chr_hi", z3.IntSort(), z3.StringSort())
+HV_UTF8 = z3.Function("hv_utf8", z3.StringSort(), BYTES)
+
+
+class VByteRun(VInt):
+    """the run of ints obtained by iterating over a symbolic bytes value; understood by bytes() only (produced only when
+    the contract sets ghost['utf8_fn'])"""
+    __slots__ = ("seq",)
+
+    def __init__(self, seq):
+        super().__init__(int, z3.IntVal(0))
+        self.seq = seq
+
+
+def chr_term(run, i):
+    """chr(i) for 0 <= i <= 0x10FFFF.  z3's character sort ends at 0x2FFFF: above it chr is an uninterpreted function
+    (the same symbol in code and specification), the path is forked so that low code points stay exact."""
+    if run is None:
+        return z3.If(i <= 0x2FFFF, z3.StrFromCode(i), HV_CHR(i))
+    if run.branch(i <= 0x2FFFF):
+        return z3.StrFromCode(i)
+    return HV_CHR(i)
 
 
 @callm(builtins.print)
